@@ -9,6 +9,7 @@ CONSTANTS
   FixLock = TRUE
   FixInit = TRUE
   FixIsSet = TRUE
+  DetTime = FALSE
   Locked = TRUE
 INVARIANT NoError
 INVARIANT NoLostWakeup
